@@ -52,7 +52,8 @@ def gen_specs(rng):
       form = rng.choice(['import', 'import_as', 'from', 'from_as'])
       if form.startswith('from') and '.' not in mod:
         form = 'import'
-      specs.append(('import', form, mod, rng.choice(['al', 'np2'])))
+      # an alias may repeat a component of the module name: it is an alias all the same
+      specs.append(('import', form, mod, rng.choice(['al', 'np2', mod.split('.')[0], mod.split('.')[-1]])))
     elif r < 0.86:
       specs.append(('include', rng.choice(["'a.gin'", '"dir/b.gin"', "'x' 'y.gin'"])))
     else:
